@@ -471,6 +471,7 @@ def main():
     witness_idx = len(items)
     items.append((witness_idx, 'plain', opspace.GLOBAL_STATE_WITNESS))
     random.Random(a.seed).shuffle(items)
+    items.sort(key=lambda it: it[0] != witness_idx)      # the routed witness first: a budget cut must not drop it
     by_idx = dict((it[0], it) for it in items)
     evaluated = sites = runs = conv_errors = done = programs = 0
     stats = {}
